@@ -1768,6 +1768,17 @@ Check C02_join_file_base : forall dbg hp hpo hd, HostRT hp hpo hd -> host_above 
   parse_url dbg hp hpo hd ovr (Some b) input = POk u -> Known_file_drive u = false -> FileCanon hp hd u.
 Print Assumptions C02_join_file_base.
 
+(* every join against a canonical file base, whatever the reference (another scheme: the base is not consulted) *)
+Theorem C02_join_file_any : forall dbg hp hpo hd, HostOK2 hp hpo hd -> host_nonempty hp hpo -> host_no_wdl hp hd ->
+  forall ovr b input u, FileCanon hp hd b -> usv_list input ->
+  parse_url dbg hp hpo hd ovr (Some b) input = POk u -> Known_file_drive u = false -> CanonF hp hpo hd u.
+Proof. exact join_file_any. Qed.
+Check C02_join_file_any : forall dbg hp hpo hd, HostOK2 hp hpo hd -> host_nonempty hp hpo -> host_no_wdl hp hd ->
+  forall ovr b input u, FileCanon hp hd b -> usv_list input ->
+  parse_url dbg hp hpo hd ovr (Some b) input = POk u -> Known_file_drive u = false ->
+  Canon hp hpo hd u \/ FileCanon hp hd u.
+Print Assumptions C02_join_file_any.
+
 (* R.4  the reach theorem: every record of a ReachC8 history (C02_Reach9: ReachC7 and every join against a file
    record, base-free file references against any Reachable4 base, the operations file_op8 on file records) is a
    fixpoint; RC8_step_file_path adds quirks pathname and Url::set_path (file_path_op) on file records.
